@@ -2,7 +2,7 @@
    observed through the public API after every operation; compared with the model (Mempool/Model.v)
    and checked against the specification (the property's own text) evaluated on the observations. *)
 From NG Require Import Common.Tactics Common.HarnessLib.
-From NG Require Export Mempool.Model.
+From NG Require Export Mempool.Model Mempool.Spec.
 Open Scope N_scope.
 
 Inductive hop :=
@@ -80,8 +80,7 @@ Fixpoint sortedb (l : list tx) : bool :=
   | a :: r => forallb (fun b => (0 <=? cmp a b)%Z) r && sortedb r
   end.
 
-Definition sum_fees (p : payer) (l : list tx) : N :=
-  fold_right (fun e acc => if payer_eqb (payer_of e) p then fee e + acc else acc) 0 l.
+(* [sum_fees] is the definition the theorems use (Mempool/Spec.v) *)
 
 Definition conflicts_with (a b : tx) : bool := mem (tid a) (confl b) || mem (tid b) (confl a).
 Definition same_oracle (a b : tx) : bool :=
